@@ -284,6 +284,61 @@ print(json.dumps(out))
 """
 
 
+def _ready_job(job):
+    """The blocking facade builds its inventory on the thread that completes the connection while the client polls
+    `is_connected` on its own thread (GeckoSpaDescriptor.get_facade does exactly that): under the controlled scheduler, with
+    a bounded number of pre-emptions at line boundaries of facade.py, a client that saw `is_connected` finds the complete
+    inventory - the one the facade ends up with."""
+    (plat, cfg, log), prefix = job
+    from .. import explore, threads
+    from . import c11
+
+    def body(ch):
+        spa = fakes.FakeSpa().load(plat, cfg, log)
+        ws = wirings(spa, False)
+        w = next((x for x in ws if x[0].startswith("maximal:")), ws[-1])
+        spa.struct.set_status_block(apply_wiring(spa, bytes(1024), w[1]))
+        f_mod = c11.f_mod
+        f_mod.threading = type("T", (), {"Thread": c11._NoThread})
+        try:
+            fac = f_mod.GeckoFacade(spa)
+        finally:
+            import threading as _th
+
+            f_mod.threading = _th
+        sched = threads.Sched(ch, ("geckolib/automation/facade.py",))
+
+        def connector():
+            fac._on_connected(spa)
+            return "done"
+
+        def client():
+            for _ in range(3):
+                if fac.is_connected:
+                    inv = inventory(fac)
+                    return [inv, sorted(d.key for d in fac.all_user_devices), [s.key for s in fac.sensors + fac.binary_sensors]]
+            return None
+
+        res = sched.run([connector, client])
+        viol = []
+        rep = {"mode": "ready", "combo": [plat, cfg, log], "prefix": [list(p) for p in ch.trace]}
+        key = f"C12|ready-before-inventory|sync|{plat}"
+        final = [inventory(fac), sorted(d.key for d in fac.all_user_devices), [s.key for s in fac.sensors + fac.binary_sensors]]
+        errs = [repr(t.error) for t in sched.threads if t.error]
+        if sched.deadlock:
+            viol.append((key + "|deadlock", "deadlock", rep))
+        elif errs:
+            viol.append((key, f"{plat} cfg {cfg} log {log}: a client thread that polled is_connected while the connection completed "
+                              f"on another thread (schedule {sched.schedule[:40]}...) failed: {errs[:2]}", rep))
+        elif res[1] is not None and res[1] != final:
+            viol.append((key, f"{plat} cfg {cfg} log {log}: is_connected was True, yet the client found "
+                              f"{[e['key'] for e in res[1][0]]} / {len(res[1][2])} sensors where the facade ends up with "
+                              f"{[e['key'] for e in final[0]]} / {len(final[2])} sensors", rep))
+        return {"violations": viol, "obs": core.digest([res[1] is None, res[1] == final]), "end": core.digest(sched.schedule)}
+
+    return explore.run_with(prefix, body)
+
+
 def _hashseed_job(seed):
     combos = [("inyt", 60, 60), ("inxm", 9, 9), ("inyj", 62, 59), ("inxe", 61, 60), ("inye-v3", 86, 83)]
     env = dict(os.environ, PYTHONHASHSEED=str(seed), GECKOMC_REPO=core.REPO)
@@ -330,6 +385,17 @@ def run(ctx):
                 ctx.violation(f"C12|{why[0]}|sync|hashseed", f"PYTHONHASHSEED={seed} {plat} cfg {cfg} log {log}: {why[1]}",
                               {"mode": "hashseed", "seed": seed})
     ctx.set("hashseed_runs", 16)
+    # readiness of the blocking facade across threads
+    from .. import explore
+    tot = 0
+    for combo in [("inyt", 60, 60)] + ([("inxm", 9, 9), ("inyj", 62, 59), ("inxe", 61, 60)] if not ctx.quick else []):
+        st = explore.explore(ctx, _ready_job, combo, 1 if ctx.quick else 2, label=f"ready{combo}", max_execs=20000)
+        tot += st["executions"]
+        explore.fold_stats(ctx, st, prefix="ready_")
+        if len(st["end"]) < 2 and not st["stopped_on_violation"]:
+            raise core.HarnessError("C12: the readiness exploration produced a single schedule - vacuous")
+    ctx.set("ready_thread_schedules", tot)
+    evals += tot
     ctx.set("hashseed_distinct_orders", {str(k): len(v) for k, v in orders.items()})
     ctx.set("evaluations", evals)
     ctx.set("distinct_nontrivial", len(combos))
@@ -341,6 +407,13 @@ def run(ctx):
 
 
 def replay(ctx, data):
+    if data.get("mode") == "ready":
+        res = _ready_job((tuple(data["combo"]), [tuple(p) for p in data["prefix"]]))
+        ctx.merge_violations(res["violations"])
+        ctx.set("evaluations", 1)
+        ctx.set("distinct_nontrivial", 2)
+        ctx.set("rule", "replay")
+        return
     if data["mode"] == "hashseed":
         seed, res = _hashseed_job(data["seed"])
         for plat, cfg, log, pumps, why in res:
